@@ -30,11 +30,13 @@ macro_rules! run_world {
                 h = $m::Harness::new();
                 let d: Vec<String> = $m::decl().iter().map(|x| x.to_string()).collect();
                 writeln!(out, "#case {} {}", id, d.join(" ")).unwrap();
+                out.flush().unwrap();
                 continue;
             }
             let obs = h.step(line);
             let s: Vec<String> = obs.iter().map(|x| x.to_string()).collect();
             writeln!(out, "{}", s.join(" ")).unwrap();
+            out.flush().unwrap();
         }
         out.flush().unwrap();
     }};
